@@ -90,8 +90,12 @@ uint64_t exec_plan(const Plan &plan, Ctx &ctx)
 	ctx.plan = &plan;
 	ctx.property = plan.property;
 	pf->exec(ctx);
-	if (ctx.stats)
+	if (ctx.stats) {
 		ctx.stats->sim_seconds += g_clock.covered;
+		if (ctx.nontrivial)
+			for (uint64_t g : ctx.sigs)
+				ctx.stats->signatures.insert(g);
+	}
 	uint64_t h = ctx.log.h;
 	sim_reset_run();
 	return h;
@@ -209,6 +213,13 @@ static std::string classify_crash(const std::string &err, int status)
 		kind = strf("signal-%d", WTERMSIG(status));
 	else if (WIFEXITED(status))
 		kind = strf("exit-%d", WEXITSTATUS(status));
+	// a report whose innermost frame is harness code is a harness bug, never a finding
+	size_t f0 = err.find("#0 ");
+	if (f0 != std::string::npos) {
+		size_t eol = err.find('\n', f0);
+		if (err.substr(f0, eol - f0).find("/verif/sim/") != std::string::npos)
+			return "harness-bug:" + kind;
+	}
 	// first frame inside libjwt
 	std::string where = "?";
 	size_t pos = 0;
@@ -810,6 +821,11 @@ static int cmd_check(const std::string &property, Tier tier, uint64_t verif_seed
 		make_plan(*cd, verif_seed, f.index, tier, plan);
 		size_t orig_steps = plan.total_steps();
 		std::string key = f.v.key();
+		if (f.v.cause.compare(0, 12, "harness-bug:") == 0) {
+			fprintf(stderr, "jwtsim: HARNESS-ERROR run %llu: %s\n%s\n", (unsigned long long)f.index, f.v.cause.c_str(), f.v.detail.c_str());
+			exit_code = 2;
+			continue;
+		}
 		// 1. same plan in a fresh child: violation and event-log hash must match
 		ChildResult a = run_in_child(plan);
 		ChildResult b = run_in_child(plan);
